@@ -96,6 +96,11 @@ class Lin(Case):
 
     def tol(s): return 1e-3 if s.w == 32 else 1e-8
 
+    def bound(s, n, cond=1.0, c=30.0):
+        """the property's error bound c*n*eps*cond for native replays of solver counterexamples"""
+        eps = 2.0 ** -23 if s.w == 32 else 2.0 ** -52
+        return c * n * eps * max(float(cond), 1.0)
+
 
 def out_mats(names, T, n, m=None):
     return [Buf(nm, T, n * (m or n), 'out') for nm in names]
